@@ -7,17 +7,53 @@
 //!   (`pct` / `rand` force that policy for every run instead of the 2:1 mix; `results` adds a
 //!    `results t0=[..] t1=[..]` line (API results of the traced run) right after the result line;
 //!    `oneline` joins all output lines of the scenario with ` ;; ` into one line)
-//! thread ops: s (send) ts (try_send) r (recv) tr (try_recv) rt (recv_timeout 20us)
-//!             D (drain: recv until Disconnected)  y (yield)
+//! flavours:
+//!   point-to-point  spsc mpscb mpscu mpmcb mpmcu spscrv mpscrv mpmcrv   (sync handles)
+//!                   spsca mpscba mpscua mpmcba mpmcua spscrva mpscrva mpmcrva  (async handles, driven
+//!                   through sched::block_on)
+//!   broadcast       spmc / spmca      (src/scenmods/spmc.rs)
+//!   pub/sub         topic / topica    (src/scenmods/topic.rs; needs hook H2-topic, else `ok skipped=no-hook`)
+//! thread label `P:`/`C:` uses the flavour's default handle kind; `PA:`/`CA:` force the async handle,
+//! `PS:`/`CS:` the sync handle (mixed scenarios on one channel; the handle is converted with
+//! to_async()/to_sync() before the threads start).
+//! thread ops (point-to-point):
+//!   producer: s (send) ts (try_send) y (no-op)
+//!             sc (async only: create a send future, poll it once with a counting waker, scheduling
+//!                 point, drop it)
+//!   consumer: r (recv) tr (try_recv) rt (sync: recv_timeout 20us; async: poll, scheduling point, poll
+//!             again with the same waker, drop) D (drain: recv until Disconnected) y
+//!             rc (async only: create a recv future, poll once with a counting waker, scheduling point,
+//!                 drop it)
+//!             rw / sw (async only: poll once with a waker that unparks the thread; if Pending, park until
+//!                 that waker is invoked, then drop the future WITHOUT polling it again: a woken future
+//!                 dropped un-polled must pass its wake-up on)
+//!             rp (async only: poll once with a counting waker, then block_on the SAME future, i.e.
+//!                 re-poll with a different waker)
+//!             K  (mpmcb only, last op: keep this receiver handle alive after the thread ends, like an idle
+//!                 task holding it; the teardown then does not release parked senders, and a run that ends
+//!                 with parked threads is judged by their wait conditions: a sender parked although the
+//!                 buffer has room / a receiver parked although items are buffered is a lost wake-up)
 //! stdout per scenario:
 //!   ok runs=<n> steps=<total> events=<total> done=<completed> ...
-//!   FAIL <clause> run=<i> seed=<s> :: <detail> :: choices=<c,c,...>
+//!   FAIL <clause>[,<clause>...] run=<i> seed=<s> :: <detail> :: choices=<c,c,...>
+//! A run that deadlocks is reported as C05:deadlock, and ALSO as C06:missed-wake when a stuck thread
+//! is inside block_on (its waker was never invoked), as C04:no-disc when a receiver is stuck although
+//! every producer thread finished (Disconnected never observed).
 //! With `trace`, the event trace of the failing (or first) run is printed after
 //! the result line, one event per line, terminated by `end-trace`.
+#[path = "../scenmods/common.rs"]
+mod common;
+#[path = "../scenmods/spmc.rs"]
+mod spmc;
+#[path = "../scenmods/topic.rs"]
+mod topic;
+
+use common::*;
 use sched::{format_rec, run, Namer, Outcome, Policy};
 use std::io::{self, BufRead, Write};
 use std::sync::atomic::{AtomicU32, Ordering};
 use std::sync::{Arc, Mutex};
+use std::task::Poll;
 use std::time::Duration;
 
 const MAXID: usize = 4096;
@@ -31,33 +67,75 @@ impl Drop for P {
   }
 }
 
-#[derive(Debug, Clone, PartialEq)]
-enum Res {
-  SendOk(u64),
-  SendFull(u64),
-  SendClosed(u64),
-  /// blocking send failed: SendError carries no value, the channel must drop it (once)
-  SendClosedDropped(u64),
-  Val(u64),
-  Empty,
-  Disc,
-  Timeout,
-}
-
 trait TxH: Send {
   fn send(&mut self, p: P) -> Res;
   fn try_send(&mut self, p: P) -> Res;
+  fn send_cancel(&mut self, _p: P) -> Res {
+    panic!("op sc needs an async handle")
+  }
+  fn send_woken_drop(&mut self, _p: P) -> Res {
+    panic!("op sw needs an async handle")
+  }
   fn dup(&self) -> Option<Box<dyn TxH>>;
+  /// sync <-> async conversion (to_async / to_sync)
+  fn flip(self: Box<Self>) -> Box<dyn TxH>;
+  fn mode(&self) -> Mode;
 }
 trait RxH: Send {
   fn recv(&mut self) -> Res;
   fn try_recv(&mut self) -> Res;
   fn recv_timeout(&mut self, d: Duration) -> Res;
+  fn recv_cancel(&mut self) -> Res {
+    panic!("op rc needs an async handle")
+  }
+  fn recv_repoll(&mut self) -> Res {
+    panic!("op rp needs an async handle")
+  }
+  fn recv_woken_drop(&mut self) -> Res {
+    panic!("op rw needs an async handle")
+  }
   fn dup(&self) -> Option<Box<dyn RxH>>;
+  fn flip(self: Box<Self>) -> Box<dyn RxH>;
+  fn mode(&self) -> Mode;
+  /// (buffered items, capacity) where the handle can tell (used to judge a quiescent state with a
+  /// kept-alive receiver, op `K`)
+  fn probe(&self) -> Option<(usize, usize)>;
+}
+
+fn try_send_res(id: u64, r: Result<(), fibre::TrySendError<P>>) -> Res {
+  match r {
+    Ok(()) => Res::SendOk(id),
+    Err(fibre::TrySendError::Full(v)) => {
+      std::mem::forget(v);
+      Res::SendFull(id)
+    }
+    Err(fibre::TrySendError::Closed(v)) => {
+      std::mem::forget(v);
+      Res::SendClosed(id)
+    }
+    Err(fibre::TrySendError::Sent(v)) => {
+      std::mem::forget(v);
+      Res::SendClosed(id)
+    }
+  }
+}
+
+fn val(v: P) -> Res {
+  let id = v.0;
+  std::mem::forget(v);
+  Res::Val(id)
+}
+
+fn try_recv_res(r: Result<P, fibre::TryRecvError>) -> Res {
+  match r {
+    Ok(v) => val(v),
+    Err(fibre::TryRecvError::Empty) => Res::Empty,
+    Err(fibre::TryRecvError::Disconnected) => Res::Disc,
+  }
 }
 
 macro_rules! impl_tx {
-  ($t:ty, $clone:expr) => {
+  ($t:ty, $other:ty, $conv:ident, $clone:expr) => {
     impl TxH for $t {
       fn send(&mut self, p: P) -> Res {
         let id = p.0;
@@ -68,62 +146,88 @@ macro_rules! impl_tx {
       }
       fn try_send(&mut self, p: P) -> Res {
         let id = p.0;
-        match <$t>::try_send(self, p) {
+        try_send_res(id, <$t>::try_send(self, p))
+      }
+      fn dup(&self) -> Option<Box<dyn TxH>> {
+        let f: fn(&$t) -> Option<Box<dyn TxH>> = $clone;
+        f(self)
+      }
+      fn flip(self: Box<Self>) -> Box<dyn TxH> {
+        let o: $other = (*self).$conv();
+        Box::new(o)
+      }
+      fn mode(&self) -> Mode {
+        Mode::Sync
+      }
+    }
+  };
+}
+
+macro_rules! impl_tx_async {
+  ($t:ty, $other:ty, $conv:ident, $clone:expr) => {
+    impl TxH for $t {
+      fn send(&mut self, p: P) -> Res {
+        let id = p.0;
+        match bo(<$t>::send(self, p)) {
           Ok(()) => Res::SendOk(id),
-          Err(fibre::TrySendError::Full(v)) => {
-            std::mem::forget(v);
-            DROPS[id as usize % MAXID].fetch_add(0, Ordering::SeqCst);
-            Res::SendFull(id)
+          Err(_) => Res::SendClosedDropped(id),
+        }
+      }
+      fn try_send(&mut self, p: P) -> Res {
+        let id = p.0;
+        try_send_res(id, <$t>::try_send(self, p))
+      }
+      fn send_cancel(&mut self, p: P) -> Res {
+        let id = p.0;
+        let mut fut = std::pin::pin!(<$t>::send(self, p));
+        match poll_once(fut.as_mut()) {
+          Poll::Ready(Ok(())) => Res::SendOk(id),
+          Poll::Ready(Err(_)) => Res::SendClosedDropped(id),
+          Poll::Pending => {
+            sched::yield_point();
+            Res::SendCancelled(id)
           }
-          Err(fibre::TrySendError::Closed(v)) => {
-            std::mem::forget(v);
-            Res::SendClosed(id)
-          }
-          Err(fibre::TrySendError::Sent(v)) => {
-            std::mem::forget(v);
-            Res::SendClosed(id)
-          }
+        }
+      }
+      fn send_woken_drop(&mut self, p: P) -> Res {
+        let id = p.0;
+        let mut fut = std::pin::pin!(<$t>::send(self, p));
+        match poll_wait_woken(fut.as_mut()) {
+          Some(Ok(())) => Res::SendOk(id),
+          Some(Err(_)) => Res::SendClosedDropped(id),
+          None => Res::SendCancelled(id),
         }
       }
       fn dup(&self) -> Option<Box<dyn TxH>> {
         let f: fn(&$t) -> Option<Box<dyn TxH>> = $clone;
         f(self)
       }
+      fn flip(self: Box<Self>) -> Box<dyn TxH> {
+        let o: $other = (*self).$conv();
+        Box::new(o)
+      }
+      fn mode(&self) -> Mode {
+        Mode::Async
+      }
     }
   };
 }
 
 macro_rules! impl_rx {
-  ($t:ty, $clone:expr) => {
+  ($t:ty, $other:ty, $conv:ident, $clone:expr, $probe:expr) => {
     impl RxH for $t {
       fn recv(&mut self) -> Res {
         match <$t>::recv(self) {
-          Ok(v) => {
-            let id = v.0;
-            std::mem::forget(v);
-            Res::Val(id)
-          }
+          Ok(v) => val(v),
           Err(_) => Res::Disc,
         }
       }
       fn try_recv(&mut self) -> Res {
-        match <$t>::try_recv(self) {
-          Ok(v) => {
-            let id = v.0;
-            std::mem::forget(v);
-            Res::Val(id)
-          }
-          Err(fibre::TryRecvError::Empty) => Res::Empty,
-          Err(fibre::TryRecvError::Disconnected) => Res::Disc,
-        }
+        try_recv_res(<$t>::try_recv(self))
       }
       fn recv_timeout(&mut self, d: Duration) -> Res {
         match <$t>::recv_timeout(self, d) {
-          Ok(v) => {
-            let id = v.0;
-            std::mem::forget(v);
-            Res::Val(id)
-          }
+          Ok(v) => val(v),
           Err(fibre::RecvErrorTimeout::Timeout) => Res::Timeout,
           Err(fibre::RecvErrorTimeout::Disconnected) => Res::Disc,
         }
@@ -132,122 +236,151 @@ macro_rules! impl_rx {
         let f: fn(&$t) -> Option<Box<dyn RxH>> = $clone;
         f(self)
       }
+      fn flip(self: Box<Self>) -> Box<dyn RxH> {
+        let o: $other = (*self).$conv();
+        Box::new(o)
+      }
+      fn mode(&self) -> Mode {
+        Mode::Sync
+      }
+      fn probe(&self) -> Option<(usize, usize)> {
+        let f: fn(&$t) -> Option<(usize, usize)> = $probe;
+        f(self)
+      }
     }
   };
 }
 
-impl_tx!(fibre::spsc::BoundedSyncSender<P>, |_| None);
-impl_rx!(fibre::spsc::BoundedSyncReceiver<P>, |_| None);
-impl_tx!(fibre::mpsc::BoundedSyncSender<P>, |t| Some(Box::new(t.clone())));
-impl_rx!(fibre::mpsc::BoundedSyncReceiver<P>, |_| None);
-impl_tx!(fibre::mpsc::UnboundedSyncSender<P>, |t| Some(Box::new(t.clone())));
-impl_rx!(fibre::mpsc::UnboundedSyncReceiver<P>, |_| None);
-impl_tx!(fibre::mpmc::Sender<P>, |t| Some(Box::new(t.clone())));
-impl_rx!(fibre::mpmc::Receiver<P>, |t| Some(Box::new(t.clone())));
-impl_tx!(fibre::mpmc::UnboundedSyncSender<P>, |t| Some(Box::new(t.clone())));
-impl_rx!(fibre::mpmc::UnboundedSyncReceiver<P>, |t| Some(Box::new(t.clone())));
-impl_tx!(fibre::mpmc::rendezvous::RendezvousSyncSender<P>, |t| Some(Box::new(t.clone())));
-impl_rx!(fibre::mpmc::rendezvous::RendezvousSyncReceiver<P>, |t| Some(Box::new(t.clone())));
-impl_tx!(fibre::spsc::rendezvous::RendezvousSyncSender<P>, |_| None);
-impl_rx!(fibre::spsc::rendezvous::RendezvousSyncReceiver<P>, |_| None);
-impl_tx!(fibre::mpsc::rendezvous::RendezvousSyncSender<P>, |t| Some(Box::new(t.clone())));
-impl_rx!(fibre::mpsc::rendezvous::RendezvousSyncReceiver<P>, |_| None);
+macro_rules! impl_rx_async {
+  ($t:ty, $other:ty, $conv:ident, $clone:expr, $probe:expr) => {
+    impl RxH for $t {
+      fn recv(&mut self) -> Res {
+        match bo(<$t>::recv(self)) {
+          Ok(v) => val(v),
+          Err(_) => Res::Disc,
+        }
+      }
+      fn try_recv(&mut self) -> Res {
+        try_recv_res(<$t>::try_recv(self))
+      }
+      fn recv_timeout(&mut self, _d: Duration) -> Res {
+        let mut fut = std::pin::pin!(<$t>::recv(self));
+        match poll_twice(fut.as_mut()) {
+          Poll::Ready(Ok(v)) => val(v),
+          Poll::Ready(Err(_)) => Res::Disc,
+          Poll::Pending => Res::Timeout,
+        }
+      }
+      fn recv_cancel(&mut self) -> Res {
+        let mut fut = std::pin::pin!(<$t>::recv(self));
+        match poll_once(fut.as_mut()) {
+          Poll::Ready(Ok(v)) => val(v),
+          Poll::Ready(Err(_)) => Res::Disc,
+          Poll::Pending => {
+            sched::yield_point();
+            Res::Cancelled
+          }
+        }
+      }
+      fn recv_woken_drop(&mut self) -> Res {
+        let mut fut = std::pin::pin!(<$t>::recv(self));
+        match poll_wait_woken(fut.as_mut()) {
+          Some(Ok(v)) => val(v),
+          Some(Err(_)) => Res::Disc,
+          None => Res::Cancelled,
+        }
+      }
+      fn recv_repoll(&mut self) -> Res {
+        let mut fut = std::pin::pin!(<$t>::recv(self));
+        let first = poll_once(fut.as_mut());
+        let r = match first {
+          Poll::Ready(r) => r,
+          Poll::Pending => bo(fut),
+        };
+        match r {
+          Ok(v) => val(v),
+          Err(_) => Res::Disc,
+        }
+      }
+      fn dup(&self) -> Option<Box<dyn RxH>> {
+        let f: fn(&$t) -> Option<Box<dyn RxH>> = $clone;
+        f(self)
+      }
+      fn flip(self: Box<Self>) -> Box<dyn RxH> {
+        let o: $other = (*self).$conv();
+        Box::new(o)
+      }
+      fn mode(&self) -> Mode {
+        Mode::Async
+      }
+      fn probe(&self) -> Option<(usize, usize)> {
+        let f: fn(&$t) -> Option<(usize, usize)> = $probe;
+        f(self)
+      }
+    }
+  };
+}
 
-fn make(flavour: &str, cap: usize) -> (Box<dyn TxH>, Box<dyn RxH>) {
-  match flavour {
-    "spsc" => {
-      let (t, r) = fibre::spsc::bounded_sync::<P>(cap);
-      (Box::new(t), Box::new(r))
-    }
-    "mpscb" => {
-      let (t, r) = fibre::mpsc::bounded::<P>(cap);
-      (Box::new(t), Box::new(r))
-    }
-    "mpscu" => {
-      let (t, r) = fibre::mpsc::unbounded::<P>();
-      (Box::new(t), Box::new(r))
-    }
-    "mpmcb" => {
-      let (t, r) = fibre::mpmc::bounded::<P>(cap);
-      (Box::new(t), Box::new(r))
-    }
-    "mpmcu" => {
-      let (t, r) = fibre::mpmc::unbounded::<P>();
-      (Box::new(t), Box::new(r))
-    }
-    "mpmcrv" => {
-      let (t, r) = fibre::mpmc::rendezvous::rendezvous::<P>();
-      (Box::new(t), Box::new(r))
-    }
-    "spscrv" => {
-      let (t, r) = fibre::spsc::rendezvous::rendezvous::<P>();
-      (Box::new(t), Box::new(r))
-    }
-    "mpscrv" => {
-      let (t, r) = fibre::mpsc::rendezvous::rendezvous::<P>();
-      (Box::new(t), Box::new(r))
-    }
+macro_rules! chan {
+  ($st:ty, $at:ty, $sr:ty, $ar:ty, $txc:tt, $rxc:tt) => {
+    chan!($st, $at, $sr, $ar, $txc, $rxc, noprobe);
+  };
+  ($st:ty, $at:ty, $sr:ty, $ar:ty, $txc:tt, $rxc:tt, $pr:tt) => {
+    impl_tx!($st, $at, to_async, chan!(@tx $txc));
+    impl_tx_async!($at, $st, to_sync, chan!(@tx $txc));
+    impl_rx!($sr, $ar, to_async, chan!(@rx $rxc), chan!(@probe $pr));
+    impl_rx_async!($ar, $sr, to_sync, chan!(@rx $rxc), chan!(@probe $pr));
+  };
+  (@probe probe) => { |r| Some((r.len(), r.capacity())) };
+  (@probe noprobe) => { |_| None };
+  (@tx yes) => { |t| Some(Box::new(t.clone())) };
+  (@tx no) => { |_| None };
+  (@rx yes) => { |t| Some(Box::new(t.clone())) };
+  (@rx no) => { |_| None };
+}
+
+chan!(fibre::spsc::BoundedSyncSender<P>, fibre::spsc::BoundedAsyncSender<P>, fibre::spsc::BoundedSyncReceiver<P>, fibre::spsc::BoundedAsyncReceiver<P>, no, no);
+chan!(fibre::mpsc::BoundedSyncSender<P>, fibre::mpsc::BoundedAsyncSender<P>, fibre::mpsc::BoundedSyncReceiver<P>, fibre::mpsc::BoundedAsyncReceiver<P>, yes, no);
+chan!(fibre::mpsc::UnboundedSyncSender<P>, fibre::mpsc::UnboundedAsyncSender<P>, fibre::mpsc::UnboundedSyncReceiver<P>, fibre::mpsc::UnboundedAsyncReceiver<P>, yes, no);
+chan!(fibre::mpmc::Sender<P>, fibre::mpmc::AsyncSender<P>, fibre::mpmc::Receiver<P>, fibre::mpmc::AsyncReceiver<P>, yes, yes, probe);
+chan!(fibre::mpmc::UnboundedSyncSender<P>, fibre::mpmc::UnboundedAsyncSender<P>, fibre::mpmc::UnboundedSyncReceiver<P>, fibre::mpmc::UnboundedAsyncReceiver<P>, yes, yes);
+chan!(fibre::mpmc::rendezvous::RendezvousSyncSender<P>, fibre::mpmc::rendezvous::RendezvousAsyncSender<P>, fibre::mpmc::rendezvous::RendezvousSyncReceiver<P>, fibre::mpmc::rendezvous::RendezvousAsyncReceiver<P>, yes, yes);
+chan!(fibre::spsc::rendezvous::RendezvousSyncSender<P>, fibre::spsc::rendezvous::RendezvousAsyncSender<P>, fibre::spsc::rendezvous::RendezvousSyncReceiver<P>, fibre::spsc::rendezvous::RendezvousAsyncReceiver<P>, no, no);
+chan!(fibre::mpsc::rendezvous::RendezvousSyncSender<P>, fibre::mpsc::rendezvous::RendezvousAsyncSender<P>, fibre::mpsc::rendezvous::RendezvousSyncReceiver<P>, fibre::mpsc::rendezvous::RendezvousAsyncReceiver<P>, yes, no);
+
+/// the channel is created through the constructor of the flavour's default handle kind
+fn make(base: &str, dflt: Mode, cap: usize) -> (Box<dyn TxH>, Box<dyn RxH>) {
+  macro_rules! mk {
+    ($sync:expr, $asy:expr) => {
+      if dflt == Mode::Sync {
+        let (t, r) = $sync;
+        (Box::new(t) as Box<dyn TxH>, Box::new(r) as Box<dyn RxH>)
+      } else {
+        let (t, r) = $asy;
+        (Box::new(t) as Box<dyn TxH>, Box::new(r) as Box<dyn RxH>)
+      }
+    };
+  }
+  match base {
+    "spsc" => mk!(fibre::spsc::bounded_sync::<P>(cap), fibre::spsc::bounded_async::<P>(cap)),
+    "mpscb" => mk!(fibre::mpsc::bounded::<P>(cap), fibre::mpsc::bounded_async::<P>(cap)),
+    "mpscu" => mk!(fibre::mpsc::unbounded::<P>(), fibre::mpsc::unbounded_async::<P>()),
+    "mpmcb" => mk!(fibre::mpmc::bounded::<P>(cap), fibre::mpmc::bounded_async::<P>(cap)),
+    "mpmcu" => mk!(fibre::mpmc::unbounded::<P>(), fibre::mpmc::unbounded_async::<P>()),
+    "mpmcrv" => mk!(fibre::mpmc::rendezvous::rendezvous::<P>(), fibre::mpmc::rendezvous::rendezvous_async::<P>()),
+    "spscrv" => mk!(fibre::spsc::rendezvous::rendezvous::<P>(), fibre::spsc::rendezvous::rendezvous_async::<P>()),
+    "mpscrv" => mk!(fibre::mpsc::rendezvous::rendezvous::<P>(), fibre::mpsc::rendezvous::rendezvous_async::<P>()),
     f => panic!("unknown flavour {f}"),
   }
-}
-
-#[derive(Clone)]
-struct ThreadSpec {
-  producer: bool,
-  ops: Vec<String>,
-}
-
-struct Scenario {
-  flavour: String,
-  cap: usize,
-  runs: usize,
-  seed: u64,
-  trace: bool,
-  force: Option<bool>,
-  show_results: bool,
-  oneline: bool,
-  threads: Vec<ThreadSpec>,
-}
-
-fn parse(line: &str) -> Scenario {
-  let parts: Vec<&str> = line.split('|').collect();
-  let head: Vec<&str> = parts[0].split_whitespace().collect();
-  let mut threads = Vec::new();
-  for p in &parts[1..] {
-    let toks: Vec<&str> = p.split_whitespace().collect();
-    if toks.is_empty() {
-      continue;
-    }
-    threads.push(ThreadSpec { producer: toks[0].starts_with('P'), ops: toks[1..].iter().map(|s| s.to_string()).collect() });
-  }
-  Scenario {
-    flavour: head[0].to_string(),
-    cap: head[1].parse().unwrap(),
-    runs: head[2].parse().unwrap(),
-    seed: head[3].parse().unwrap(),
-    trace: head.get(4) == Some(&"trace"),
-    force: if head[4.min(head.len())..].contains(&"pct") { Some(true) } else if head[4.min(head.len())..].contains(&"rand") { Some(false) } else { None },
-    show_results: head[4.min(head.len())..].contains(&"results"),
-    oneline: head[4.min(head.len())..].contains(&"oneline"),
-    threads,
-  }
-}
-
-struct OneRun {
-  outcome: Outcome,
-  results: Vec<Vec<Res>>,
-  steps: usize,
-  events: usize,
-  parks: usize,
-  choices: Vec<usize>,
-  trace: Vec<sched::Rec>,
 }
 
 fn run_once(sc: &Scenario, policy: Policy, record: bool) -> OneRun {
   for d in DROPS.iter() {
     d.store(0, Ordering::SeqCst);
   }
-  let (tx0, rx0) = make(&sc.flavour, sc.cap);
+  reset_run();
+  let dflt = if sc.flavour == sc.base { Mode::Sync } else { Mode::Async };
+  let (tx0, rx0) = make(&sc.base, dflt, sc.cap);
   // distribute handles: clone for every thread but the last of its side
   let np = sc.threads.iter().filter(|t| t.producer).count();
   let nc = sc.threads.len() - np;
@@ -269,7 +402,10 @@ fn run_once(sc: &Scenario, policy: Policy, record: bool) -> OneRun {
   } else {
     drop(rx0);
   }
-  let results: Arc<Mutex<Vec<Vec<Res>>>> = Arc::new(Mutex::new(vec![Vec::new(); sc.threads.len()]));
+  let results: Arc<Mutex<Vec<Vec<Ev>>>> = Arc::new(Mutex::new(vec![Vec::new(); sc.threads.len()]));
+  // receiver handles kept alive past their thread's end (op `K`): the senders are then not released
+  // by the teardown, so a sender that should have been woken stays parked and is seen as such
+  let stash: Arc<Mutex<Vec<Box<dyn RxH>>>> = Arc::new(Mutex::new(Vec::new()));
   let mut bodies: Vec<Box<dyn FnOnce() + Send>> = Vec::new();
   let mut pi = 0u64;
   for (ti, th) in sc.threads.iter().enumerate() {
@@ -277,84 +413,154 @@ fn run_once(sc: &Scenario, policy: Policy, record: bool) -> OneRun {
     let results = results.clone();
     if th.producer {
       let mut tx = txs.pop().unwrap();
+      if tx.mode() != th.mode {
+        tx = tx.flip();
+      }
       let base = (pi + 1) * 100;
       pi += 1;
       bodies.push(Box::new(move || {
+        enter_thread(ti);
         let mut seq = 0u64;
         let mut out = Vec::new();
-        for op in &ops {
+        for (oi, op) in ops.iter().enumerate() {
+          set_op(oi);
           match op.as_str() {
             "s" => {
               seq += 1;
-              out.push(tx.send(P(base + seq)));
+              stamp(&mut out, || tx.send(P(base + seq)));
             }
             "ts" => {
               seq += 1;
-              out.push(tx.try_send(P(base + seq)));
+              stamp(&mut out, || tx.try_send(P(base + seq)));
+            }
+            "sc" => {
+              seq += 1;
+              stamp(&mut out, || tx.send_cancel(P(base + seq)));
+            }
+            "sw" => {
+              seq += 1;
+              stamp(&mut out, || tx.send_woken_drop(P(base + seq)));
             }
             "y" => std::thread::yield_now(),
             o => panic!("bad producer op {o}"),
           }
+          results.lock().unwrap()[ti] = out.clone();
         }
-        results.lock().unwrap()[ti] = out;
         drop(tx);
+        done();
       }));
     } else {
       let mut rx = rxs.pop().unwrap();
+      if rx.mode() != th.mode {
+        rx = rx.flip();
+      }
+      let stash = stash.clone();
       bodies.push(Box::new(move || {
+        enter_thread(ti);
+        let mut keep = false;
         let mut out = Vec::new();
-        for op in &ops {
+        for (oi, op) in ops.iter().enumerate() {
+          set_op(oi);
           match op.as_str() {
-            "r" => out.push(rx.recv()),
-            "tr" => out.push(rx.try_recv()),
-            "rt" => out.push(rx.recv_timeout(Duration::from_micros(20))),
+            "r" => stamp(&mut out, || rx.recv()),
+            "tr" => stamp(&mut out, || rx.try_recv()),
+            "rt" => stamp(&mut out, || rx.recv_timeout(Duration::from_micros(20))),
+            "rc" => stamp(&mut out, || rx.recv_cancel()),
+            "rp" => stamp(&mut out, || rx.recv_repoll()),
+            "rw" => stamp(&mut out, || rx.recv_woken_drop()),
             "D" => loop {
-              let r = rx.recv();
-              let stop = r == Res::Disc;
-              out.push(r);
-              if stop {
+              stamp(&mut out, || rx.recv());
+              // publish progressively so a deadlocked run still shows what was received
+              results.lock().unwrap()[ti] = out.clone();
+              if out.last().map(|e| e.res == Res::Disc).unwrap_or(false) {
                 break;
               }
             },
+            "K" => keep = true,
             "y" => std::thread::yield_now(),
             o => panic!("bad consumer op {o}"),
           }
-          // publish progressively so a deadlocked run still shows what was received
           results.lock().unwrap()[ti] = out.clone();
         }
-        results.lock().unwrap()[ti] = out;
-        drop(rx);
+        if keep {
+          stash.lock().unwrap().push(rx);
+        } else {
+          drop(rx);
+        }
+        done();
       }));
     }
   }
   let rr = run(policy, 200_000, record, bodies);
   let results = results.lock().unwrap().clone();
-  OneRun { outcome: rr.outcome, results, steps: rr.steps, events: rr.trace.len(), parks: rr.parks, choices: rr.choices, trace: rr.trace }
+  let mut one = finish_run(sc.threads.len(), rr, results);
+  // (at a deadlock every unfinished thread sits in park(): none of them holds a channel lock)
+  one.kept_probe = stash.lock().unwrap().first().map(|h| h.probe());
+  one
 }
 
-/// property monitors over one completed/aborted run; returns (clause, detail)
-fn judge(sc: &Scenario, r: &OneRun) -> Option<(String, String)> {
-  match &r.outcome {
-    Outcome::Deadlock(parked) => {
-      return Some(("C05:deadlock".into(), format!("threads {parked:?} parked forever, nobody runnable; results={:?}", r.results)));
+/// A run with a kept-alive receiver (`K`) that ends with parked threads is a violation only if a
+/// parked thread's wait condition holds in that quiescent state (C05: "parked forever while the
+/// operation it is waiting for has become possible"); a sender parked on a full buffer whose
+/// receivers are merely idle is a legitimate end of the program.
+fn judge_kept(sc: &Scenario, r: &OneRun, parked: &[usize], probe: Option<(usize, usize)>) -> Option<(String, String)> {
+  let n = sc.threads.len();
+  let Some((len, cap)) = probe else { return stuck_clauses(sc, r, None) };
+  let producers_done = (0..n).filter(|&i| sc.threads[i].producer).all(|i| r.done[i]);
+  let mut cl: Vec<String> = Vec::new();
+  let mut why = Vec::new();
+  for &i in parked.iter().filter(|&&i| i < n) {
+    let enabled = if sc.threads[i].producer { len < cap } else { len > 0 || producers_done };
+    if enabled {
+      if cl.is_empty() {
+        cl.push("C05:deadlock".into());
+      }
+      if r.in_bo[i] && !cl.contains(&"C06:missed-wake".to_string()) {
+        cl.push("C06:missed-wake".into());
+      }
+      if !sc.threads[i].producer && len == 0 && !cl.contains(&"C04:no-disc".to_string()) {
+        cl.push("C04:no-disc".into());
+      }
+      if any_cancelled(r) && !cl.contains(&"C06:cancel-swallowed-wake".to_string()) {
+        cl.push("C06:cancel-swallowed-wake".into());
+      }
+      why.push(format!(
+        "t{i} ({}{}) is parked for ever although {}",
+        if sc.threads[i].producer { "sender" } else { "receiver" },
+        if r.in_bo[i] { ", inside block_on" } else { "" },
+        if sc.threads[i].producer { format!("the buffer holds {len} of {cap} items") } else if len > 0 { format!("{len} items are buffered") } else { "every sender is gone".to_string() }
+      ));
     }
-    Outcome::StepLimit => return Some(("C05:step-limit".into(), "schedule exceeded 200000 steps (livelock/unbounded spin)".into())),
-    Outcome::Panic(m) => return Some(("C01:panic".into(), m.clone())),
-    Outcome::Completed => {}
+  }
+  if cl.is_empty() {
+    return None;
+  }
+  Some((cl.join(","), format!("quiescent state with a live idle receiver: {}; results={}", why.join("; "), fmt_results(&r.results))))
+}
+
+/// property monitors over one completed/aborted run; returns (clause[,clause..], detail)
+fn judge(sc: &Scenario, r: &OneRun) -> Option<(String, String)> {
+  if let (Outcome::Deadlock(parked), Some(probe)) = (&r.outcome, r.kept_probe) {
+    return judge_kept(sc, r, parked, probe);
+  }
+  if r.outcome != Outcome::Completed {
+    return stuck_clauses(sc, r, None);
   }
   let mut sent_ok = Vec::new();
   let mut handed_back = Vec::new();
   let mut refused = Vec::new();
+  let mut cancelled = Vec::new();
   let mut got = Vec::new();
   let mut drained = false;
   for (ti, th) in sc.threads.iter().enumerate() {
     let mut last_from: std::collections::HashMap<u64, u64> = Default::default();
     let mut seen_disc = false;
-    for res in &r.results[ti] {
-      match res {
+    for ev in &r.results[ti] {
+      match &ev.res {
         Res::SendOk(id) => sent_ok.push(*id),
         Res::SendFull(id) | Res::SendClosed(id) => handed_back.push(*id),
         Res::SendClosedDropped(id) => refused.push(*id),
+        Res::SendCancelled(id) => cancelled.push(*id),
         Res::Val(id) => {
           if seen_disc {
             return Some(("C04:value-after-disc".into(), format!("thread {ti} received {id} after Disconnected")));
@@ -386,7 +592,7 @@ fn judge(sc: &Scenario, r: &OneRun) -> Option<(String, String)> {
     }
   }
   for id in &got {
-    if !sent_ok.contains(id) {
+    if !sent_ok.contains(id) && !cancelled.contains(id) {
       return Some(("C01:phantom".into(), format!("id {id} received but its send did not report success (handed back: {})", handed_back.contains(id))));
     }
   }
@@ -407,7 +613,7 @@ fn judge(sc: &Scenario, r: &OneRun) -> Option<(String, String)> {
       return Some(("C01:phantom".into(), format!("id {id} was received although its send reported Closed")));
     }
   }
-  for id in sent_ok.iter().chain(handed_back.iter()).chain(refused.iter()) {
+  for id in sent_ok.iter().chain(handed_back.iter()).chain(refused.iter()).chain(cancelled.iter()) {
     let d = DROPS[*id as usize % MAXID].load(Ordering::SeqCst);
     let returned = got.contains(id) || handed_back.contains(id);
     if returned && d != 0 {
@@ -418,20 +624,6 @@ fn judge(sc: &Scenario, r: &OneRun) -> Option<(String, String)> {
     }
   }
   None
-}
-
-fn fmt_results(rs: &[Vec<Res>]) -> String {
-  let one = |r: &Res| match r {
-    Res::SendOk(i) => format!("ok:{i}"),
-    Res::SendFull(i) => format!("full:{i}"),
-    Res::SendClosed(i) => format!("closed:{i}"),
-    Res::SendClosedDropped(i) => format!("gone:{i}"),
-    Res::Val(i) => format!("val:{i}"),
-    Res::Empty => "empty".to_string(),
-    Res::Disc => "disc".to_string(),
-    Res::Timeout => "timeout".to_string(),
-  };
-  rs.iter().enumerate().map(|(t, v)| format!("t{t}=[{}]", v.iter().map(one).collect::<Vec<_>>().join(","))).collect::<Vec<_>>().join(" ")
 }
 
 fn main() {
@@ -446,7 +638,21 @@ fn main() {
       writeln!(out).unwrap();
       continue;
     }
-    let sc = parse(&line);
+    let sc = match parse(&line) {
+      Ok(sc) => sc,
+      Err(e) => {
+        writeln!(out, "ERROR bad scenario: {e}").unwrap();
+        out.flush().unwrap();
+        continue;
+      }
+    };
+    if sc.base == "topic" && !topic::hook_present() {
+      // fibre::spmc::topic blocks through std/parking_lot unless hook H2-topic is applied: the
+      // scheduler cannot interleave (or even survive) it, so the flavour is skipped, not failed
+      writeln!(out, "ok skipped=no-hook runs=0 (fibre::spmc::topic is not routed through the traced primitives in this tree)").unwrap();
+      out.flush().unwrap();
+      continue;
+    }
     let mut steps = 0usize;
     let mut events = 0usize;
     let mut parks = 0usize;
@@ -456,11 +662,28 @@ fn main() {
       let seed = sc.seed.wrapping_mul(1_000_003).wrapping_add(i as u64);
       let pct = sc.force.unwrap_or(i % 3 == 2);
       let policy = if pct { Policy::Pct(seed, 3) } else { Policy::Random(seed) };
-      let r = run_once(&sc, policy, sc.trace || i == 0);
+      let rec = sc.trace || i == 0;
+      let (r, verdict) = match sc.base.as_str() {
+        "spmc" => {
+          let r = spmc::run_once(&sc, policy, rec);
+          let v = spmc::judge(&sc, &r);
+          (r, v)
+        }
+        "topic" => {
+          let r = topic::run_once(&sc, policy, rec);
+          let v = topic::judge(&sc, &r);
+          (r, v)
+        }
+        _ => {
+          let r = run_once(&sc, policy, rec);
+          let v = judge(&sc, &r);
+          (r, v)
+        }
+      };
       steps += r.steps;
       events += r.events;
       parks += r.parks;
-      if let Some((c, d)) = judge(&sc, &r) {
+      if let Some((c, d)) = verdict {
         fail = Some((c, d, i, seed, r));
         break;
       }
@@ -475,7 +698,11 @@ fn main() {
     let mut namer = Namer::new(&root);
     match fail {
       Some((c, d, i, seed, r)) => {
-        let ch: Vec<String> = r.choices.iter().map(|c| c.to_string()).collect();
+        // (a step-limit run has 200000 choices: the head is enough to see who was starved / spinning)
+        let mut ch: Vec<String> = r.choices.iter().take(3000).map(|c| c.to_string()).collect();
+        if r.choices.len() > 3000 {
+          ch.push(format!("...({} choices in total)", r.choices.len()));
+        }
         emit!("FAIL {c} run={i} seed={seed} :: {d} :: choices={}", ch.join(","));
         if sc.show_results {
           emit!("results {}", fmt_results(&r.results));
